@@ -19,6 +19,10 @@ structure FDet where
   ystar : Float := 0.0
   /-- `0.0 < threshold` (what `is_available` answers while phi is 0.0) -/
   zeroAvail : Bool := true
+  /-- `_mean()` / `max(_std(), min_std)` of the current window, recomputed whenever the window
+      changes (`refresh`); `phi` is asked far more often than heartbeats arrive -/
+  cmean : Float := 0.0
+  csd : Float := 0.1
 
 instance : Inhabited FDet := ⟨{}⟩
 
@@ -47,6 +51,11 @@ def FDet.std (d : FDet) : Float :=
   let var := pySum (d.ivs.toList.map fun x => Float.pow (x - mean) 2.0) / Float.ofNat d.ivs.size
   Float.sqrt var
 
+/-- recompute the cached window statistics (after building a detector or changing its window) -/
+def FDet.refresh (d : FDet) : FDet :=
+  let sd := d.std
+  { d with cmean := d.mean, csd := if d.minStd > sd then d.minStd else sd }
+
 def FDet.heartbeat (d : FDet) (ts : Float) : FDet :=
   let ivs :=
     match d.last with
@@ -57,7 +66,7 @@ def FDet.heartbeat (d : FDet) (ts : Float) : FDet :=
         let a := d.ivs.push iv
         if a.size > d.maxN then a.eraseIdxIfInBounds 0 else a
       else d.ivs
-  { d with last := some ts, ivs := ivs, count := d.count + 1 }
+  FDet.refresh { d with last := some ts, ivs := ivs, count := d.count + 1 }
 
 /-- `some y` when phi is computed from the normal tail, `none` when `phi` returns 0.0 early -/
 def FDet.y (d : FDet) (now : Float) : Option Float :=
@@ -67,9 +76,7 @@ def FDet.y (d : FDet) (now : Float) : Option Float :=
     if d.ivs.size < 1 then none else
     let el := now - l
     if el < 0.0 then none else
-    let sd := d.std
-    let sd := if d.minStd > sd then d.minStd else sd
-    some ((el - d.mean) / sd)
+    some ((el - d.cmean) / d.csd)
 
 def FDet.available (d : FDet) (now : Float) : Bool :=
   match d.y now with
